@@ -18,7 +18,7 @@ META = {
     "id": "C18",
     "technique": "Coq proof (induction over tick histories; per-style variants and invariants; finite obligations over tables regenerated from the source) + extracted-model correspondence with the real LCD object and with the emitted C++ animation helpers run under the mock core + trace oracle",
     "level_text": "Theorems C18_* (coq/Props/C18.v) are proved for all texts, widths >= 1, speeds, loop flags and all tick-time sequences about Gallina transcriptions of LCD.animate/LCD.tick and of the four __redu_lcd_start_*/__redu_lcd_tick_* template pairs plus the tick-injection rule, and (C18_tables_complete) about the style/helper tables and helper texts re-read from emitter.py, parser.py and LCD.py on every run; the models are run side by side with the real host object (buffer assignments and every _AnimationState field after each tick) and with the compiled firmware (cell writes and DDRAM dump per loop() pass).",
-    "level_note": "Trusted: Coq kernel, extraction, OCaml driver, the mock LiquidCrystal/LiquidCrystal_I2C (cursor-addressed DDRAM) and its virtual millis(), g++. The theorems are about the models; the correspondence bounds their distance from LCD.py / emitter.py. Tick injection is proved only for animate calls placed before the main loop (an animate inside `while True:` is never ticked: known finding).",
+    "level_note": "Trusted: Coq kernel, extraction, OCaml driver, the mock LiquidCrystal/LiquidCrystal_I2C (cursor-addressed DDRAM) and its virtual millis(), g++. The theorems are about the models; the correspondence bounds their distance from LCD.py / emitter.py. Tick injection is proved only for animate calls placed before the main loop (an animate inside `while True:` is never ticked: known finding); before the main loop it is proved for call sites at any depth inside if/elif/else, while, for and try/except bodies (Device/DLCDInject.v: the parser's name collection and the emitter's registration walk as two recursive walks over statement trees, C18_nested_*).",
     "design_ref": "DESIGN.md section 4 C18 (and C05 for tick injection)",
 }
 
@@ -529,14 +529,20 @@ def device_script(lcds, loop_lines=None, runtime_speed=False, pre_lines=None):
     if runtime_speed:
         L.append('spd = analog_read("A0")')
         L.append('rw = analog_read("A1")')
-    if any(d.get("wrap") or d.get("handler_anims") for d in lcds):
+    if any(d.get("wrap") or d.get("handler_anims") or d.get("via_vars") for d in lcds):
         L.append('one = analog_read("A2")')
+    if any(d.get("via_vars") for d in lcds):
+        L += ["yes = one == 1", "no = one == 0"]
     j = 0
     for uid, d in enumerate(lcds):
         calls = []
         for a in d["anims"]:
             if runtime_speed:
                 calls.append(f'{d["name"]}.animate("{a[0]}", rw + {a[1]}, {py_str(a[2])}, speed_ms=spd + {a[3] - runtime_speed}, loop={a[4]})')
+            elif d.get("via_vars"):
+                # the text held in a str variable, the loop flag computed at run time from a pin reading
+                L.append(f'tx{uid}_{len(calls)} = {py_str(a[2])}')
+                calls.append(f'{d["name"]}.animate("{a[0]}", {a[1]}, tx{uid}_{len(calls)}, speed_ms={a[3]}, loop={"yes" if a[4] else "no"})')
             else:
                 calls.append(animate_call(d["name"], a, j % 4))
             j += 1
@@ -849,6 +855,8 @@ def gen_device_groups(ctx):
                 text = s.get("text") or mk_text(s["n"], salt=s["salt"])
                 lcds.append({"name": f"d{q:02d}", "cols": s["cols"], "rows": s["rows"], "i2c": s["i2c"],
                              "anims": [[s["style"], s["row"], text, speed, s["loop"]]]})
+                if q % 3 == 2 and (len(sketches) + q) % 2 == 0:
+                    lcds[-1]["via_vars"] = True
                 if q % 3 == 1:
                     # the call site inside a block that runs once (if / else / elif / for / while / try / nested)
                     lcds[-1]["wrap"] = WRAPS[1 + (len(sketches) + q // 3) % (len(WRAPS) - 1)]
@@ -960,6 +968,7 @@ def run_device(ctx, stats):
         tally(stats, "dev_cols", case["lcd"]["cols"])
         tally(stats, "dev_wiring", "i2c" if case["lcd"]["i2c"] else "parallel")
         tally(stats, "dev_call_site_placement", case["lcd"].get("wrap") or "top-level")
+        tally(stats, "dev_call_arguments", "text variable + run-time loop flag" if case["lcd"].get("via_vars") else "run-time speed and row" if case["runtime_speed"] else "literals")
         if case["lcd"].get("handler_anims"):
             tally(stats, "dev_displays_with_handler_call_sites", "only in handlers" if not case["lcd"]["anims"] else "handlers and elsewhere")
         for a in case["lcd"]["anims"]:
@@ -1471,11 +1480,20 @@ def run(ctx: C.Ctx):
                 "schedule 'burst' = late passes (2..5 periods) each followed by several quick passes (0, 1, period/4 ... apart) and then one exactly on time; 'mixed' draws gaps from {0,1,p-1,p,p+1,2p,p/2,3p+1,7p+3}; "
                 "tick histories are long enough to contain more than len+2*cols+2 due ticks (non-looping). The per-animation relations (rate limit over all pairs of steps, no due pass skipped, no frame after a skipped due pass, "
                 "termination bound, one frame per step) are evaluated for every animation that has its row to itself (device) / for every animation (host). "
+                "Call-site placement: every third display of a grid sketch and every display of the multi sketches has its animate calls inside a block that runs once (if / else / elif / for / while / try / if>for>try), "
+                "two displays per multi sketch have call sites inside (nested) except handlers (one of them only there: it never starts, its rows must stay blank, its tick calls must exist); on every transpiled sketch the "
+                "emitted text is checked: each state variable started in setup() is declared and has exactly one tick call of its style at the top level of loop(). "
+                "Tick injection trees: a display whose only call site ends every path of length 1 and 2 (and a seeded sample of length 3; thorough: all 512) over the body kinds {if, elif, else, while, for, try body, first handler, second handler}, "
+                "the rest of the script rotating over (nothing else animates / main display at top level / main display in every sibling body), two call sites of one display in different handlers, seeded random trees of depth <= 3, "
+                "trees with nested call sites inside the main loop (correspondence only) and scripts without a main loop; handler headers rotate over `except:`, `except ValueError:`, `except Exception as e:`, `except Exception:`. "
+                "Host, several displays: one in nine grid cases and half of the multi cases run next to a second display created in the same process (same geometry/style/row/registry key in the grid), whose animations start before and after the main one's and which is ticked between the main ticks; "
+                "any change of one display across an operation on the other is a failure. "
                 "Non-trivial = at least one frame was drawn by a tick; distinct by (geometry, animations, schedule prefix).",
         "samples": [hcases[0], hcases[len(hcases) // 2], dindex[0][0] if dindex else None],
         "distribution": stats,
         "guard": "host: cols, rows >= 1, tick times positive and non-decreasing; device: additionally 0 <= row < rows, text without control characters, quotes or backslashes (non-ASCII text = its UTF-8 bytes; speed_ms may be negative: cast to unsigned long), "
-                 "1 <= cols <= 40, lcd.animate calls placed before `while True:` (outside: F-C18-animate-in-loop-never-ticked)",
+                 "1 <= cols <= 40, lcd.animate calls placed before `while True:` at any block depth (outside: F-C18-animate-in-loop-never-ticked) and not inside a def (F-C18-animate-in-function-undeclared); "
+                 "sketches that are compiled use bare `except:` handlers only (a named exception class becomes catch (<Class> &), undeclared on any core: C06)",
         "unmodelled": ["device: row outside the display (library clamps the row), millis() wrap-around, speed_ms >= 2^W (wraps in the unsigned cast)",
                        "device: DDRAM addressing beyond 40 columns / 4-row interleaving (shown unreachable by C18_frame_geometry_device)",
                        "host: non-int now_ms / speed_ms, LCD.begin() during an animation"],
